@@ -1,7 +1,8 @@
 (* C13 — Indexing and slicing follow the language reference exactly.
    Property theorems only; every proof is [exact <lemma>]. *)
 From verif Require Import lib.Base lib.Utf8 model.C13
-  proofs.C13_convert_proofs proofs.C13_proofs proofs.C13_runes_proofs proofs.C13_string_proofs.
+  proofs.C13_convert_proofs proofs.C13_proofs proofs.C13_runes_proofs proofs.C13_string_proofs
+  proofs.C13_oracle_proofs.
 Open Scope Z_scope.
 
 (* For every length a Go slice or string can have (0 <= n <= MaxInt) and every
@@ -146,6 +147,33 @@ Print Assumptions C13_oracle_sound_assoc_list.
 Theorem C13_every_rune_roundtrips : forall r, valid_rune r = true -> rune_ok r = true.
 Proof. exact rune_ok_all. Qed.
 Print Assumptions C13_every_rune_roundtrips.
+
+(* The model's own result passes the oracle on every operation: for every list
+   length, every index value, every valid text without U+FFFD. *)
+Theorem C13_model_meets_oracle_convert : forall n raw, in_int_range n ->
+  check_C13 (OpConvert n raw) (run_op (OpConvert n raw)) = true.
+Proof. exact model_meets_oracle_convert. Qed.
+Print Assumptions C13_model_meets_oracle_convert.
+
+Theorem C13_model_meets_oracle_index_list : forall l raw, zlen l <= MaxInt ->
+  check_C13 (OpIndexList l raw) (run_op (OpIndexList l raw)) = true.
+Proof. exact model_meets_oracle_index_list. Qed.
+Print Assumptions C13_model_meets_oracle_index_list.
+
+Theorem C13_model_meets_oracle_assoc_list : forall l raw v, zlen l <= MaxInt ->
+  check_C13 (OpAssocList l raw v) (run_op (OpAssocList l raw v)) = true.
+Proof. exact model_meets_oracle_assoc_list. Qed.
+Print Assumptions C13_model_meets_oracle_assoc_list.
+
+Theorem C13_model_meets_oracle_index_str_partial : forall rs s raw, good_b rs = true -> zlen s <= MaxInt ->
+  check_C13 (OpIndexStr (Some rs) s raw) (run_op (OpIndexStr (Some rs) s raw)) = true.
+Proof. exact model_meets_oracle_index_str. Qed.
+Print Assumptions C13_model_meets_oracle_index_str_partial.
+
+Theorem C13_model_meets_oracle_assoc_str_partial : forall rs s raw rp, good_b rs = true -> zlen s <= MaxInt ->
+  check_C13 (OpAssocStr (Some rs) s raw (Some rp)) (run_op (OpAssocStr (Some rs) s raw (Some rp))) = true.
+Proof. exact model_meets_oracle_assoc_str. Qed.
+Print Assumptions C13_model_meets_oracle_assoc_str_partial.
 
 (* ---- non-vacuity ---- *)
 Example C13_ex_incl_minus1 :
